@@ -358,6 +358,17 @@ func c18FlateWriter(r *eng.Run) {
 	}
 	w := wsflate.NewWriter(p1, ctor)
 	mode1 := r.T.Int(sim.LHist, 7)
+	if r.T.Chance(sim.LFault, 1, 5) {
+		// The very first call of the life is a Write so large and so
+		// incompressible that the compressor emits blocks from inside it, into
+		// a destination that fails there (compress/flate reports that as
+		// (0, err) and stays broken).
+		m1 = make([]byte, 70000+r.T.Int(sim.LLen, 200000))
+		sim.Fill(m1, r.T.U32(sim.LPaySeed), 1)
+		p1.WFailAt, p1.WFailN = r.T.Int(sim.LFaultAt, 2), r.T.Int(sim.LFaultAt, 3)
+		mode1 = r.T.Int(sim.LHist, 2)
+		r.Probe("first_write_fails_inside_the_compressor")
+	}
 	switch mode1 {
 	case 4: // a life without a single Write call: closed at once
 		w.Close()
